@@ -1042,7 +1042,13 @@ def judge(chk, c, evs):
                     return
             dd = cap + 3 * tol + 0.05 * hw
             px, py = base[0] + sign * tdir[0] * dd, base[1] + sign * tdir[1] * dd
-            far = all(math.hypot(px - d[0], py - d[1]) > dd - 1e-9 for d in dense[::4])
+            # not in the band of some other stretch of the same path (the extended cap of one end can reach another stretch without the
+            # centre lines coming as close as the self-approach clearance): every centre point outside the terminal stretch must be farther
+            # away than its half width
+            term = cap + 3 * hw + spacing
+            far = all(math.hypot(px - d[0], py - d[1]) > dd - 1e-9 for d in dense[::4]) and all(
+                math.hypot(px - d[0], py - d[1]) > d[2] + 3 * tol + spacing for k_, d in enumerate(dense)
+                if (cum[k_] if name == 'start' else cum[-1] - cum[k_]) > term)
             if far and geom.fwinding(poly, px, py) != 0:
                 chk.violation('C08/outline/end-long', 'element %d %s, end style %d: the point %.4g beyond the end (cap length %.4g) is inside the outline' % (ei, name, end_t, dd, cap), rp)
                 return
